@@ -3,7 +3,7 @@ import Femio.Model.QueryCache
 /-! driver command for C19 (stateless: one request = one history)
 
 ```
-c19.run <invalidate> list(<meth> <cap>) list(<meth> <args> list(<meth> <args> <recv>)) list(op)
+c19.run <invalidate> list(<meth> <cap>) list(<meth> <args> <version> list(<meth> <args> <recv>)) list(op)
    op := q <obj> <meth> <args> | m <obj>
 -> ok <n> (v <stamp> <hits> <misses> | m) …
 ``` -/
@@ -11,7 +11,7 @@ namespace Femio.C19
 open Femio.Proto
 
 def callP : P Call := do let m ← nat; let a ← nat; let r ← nat; pure ⟨m, a, r⟩
-def ruleP : P ((Nat × Nat) × List Call) := do let m ← nat; let a ← nat; let cs ← listOf callP; pure ((m, a), cs)
+def ruleP : P ((Nat × Nat × Nat) × List Call) := do let m ← nat; let a ← nat; let v ← nat; let cs ← listOf callP; pure ((m, a, v), cs)
 def opP : P Op := do
   let t ← tok
   match t with
